@@ -9,9 +9,14 @@ use serde_json::json;
 /// Independent ISO 7816-4 command APDU framer.
 /// enc: 0 short, no Le | 1 short + Le | 2 extended, no Le | 3 extended + Le
 pub fn frame(cla: u8, ins: u8, p1: u8, p2: u8, data: &[u8], enc: usize) -> Option<Vec<u8>> {
+    frame_le(cla, ins, p1, p2, data, enc, 0)
+}
+
+/// `le`: expected length to announce when the encoding carries an Le field (0 = maximum)
+pub fn frame_le(cla: u8, ins: u8, p1: u8, p2: u8, data: &[u8], enc: usize, le: u16) -> Option<Vec<u8>> {
     let mut v = vec![cla, ins, p1, p2];
     let extended = enc >= 2;
-    let le = enc % 2 == 1;
+    let le_present = enc % 2 == 1;
     if !extended {
         if data.len() > 255 {
             return None;
@@ -20,21 +25,22 @@ pub fn frame(cla: u8, ins: u8, p1: u8, p2: u8, data: &[u8], enc: usize) -> Optio
             v.push(data.len() as u8);
             v.extend_from_slice(data);
         }
-        if le {
-            v.push(0x00); // Le = 256
+        if le_present {
+            v.push(le as u8); // 0x00 = 256
         }
     } else {
         if data.is_empty() {
-            if !le {
+            if !le_present {
                 return None; // same bytes as the short case 1
             }
-            v.extend_from_slice(&[0x00, 0x00, 0x00]); // Le = 65536
+            v.push(0x00);
+            v.extend_from_slice(&le.to_be_bytes()); // 0x0000 = 65536
         } else {
             v.push(0x00);
             v.extend_from_slice(&(data.len() as u16).to_be_bytes());
             v.extend_from_slice(data);
-            if le {
-                v.extend_from_slice(&[0x00, 0x00]);
+            if le_present {
+                v.extend_from_slice(&le.to_be_bytes());
             }
         }
     }
@@ -97,8 +103,13 @@ fn observed(r: &Result<Request, Status>) -> Expect {
 pub const ENC_NAMES: [&str; 4] = ["short", "short+Le", "extended", "extended+Le"];
 pub const LENGTHS: [usize; 16] = [0, 1, 32, 63, 64, 65, 66, 67, 96, 255, 256, 318, 319, 320, 321, 400];
 
+const LE_VALUES: [u16; 8] = [0, 1, 5, 6, 7, 255, 256, 0xFFFF];
+
 fn check_apdu(cla: u8, ins: u8, p1: u8, p2: u8, data: &[u8], enc: usize, obs: &mut Obs) -> CaseResult {
-    let Some(apdu) = frame(cla, ins, p1, p2, data, enc) else {
+    // the announced expected length rotates with the contents; it never influences the result
+    let le = LE_VALUES[(data.len() + p2 as usize + ins as usize) % LE_VALUES.len()];
+    let le = if enc < 2 { le & 0xFF } else { le };
+    let Some(apdu) = frame_le(cla, ins, p1, p2, data, enc, le) else {
         obs.excluded = true;
         return Ok(());
     };
@@ -278,7 +289,7 @@ pub fn gens() -> Vec<Gen> {
     vec![G_HEADER, G_RANDOM, G_RAW, G_CONCRETE, Gen { name: "c08_raw_concrete", f: g_concrete }]
 }
 
-pub const RULE: &str = "APDUs are constructed by an independent ISO 7816-4 framer from (cla, ins, p1, p2, data, encoding in {short, short+Le, extended, extended+Le}) and handed to iso7816's CommandView / Command<7609> parsers and then to both ctap1::Request conversions. Thorough: the complete header space (256 classes x 256 instructions x 256 P1), each header with one (length, encoding, key-handle-length-byte consistency) variant chosen by rotation, and for instructions 1, 2, 3 with ALL 256 variants (16 data lengths on the decision boundaries 0,1,32,63..67,96,255,256,318..321,400 x 4 encodings x 4 consistency modes); quick: every (cla, ins) with P1 in {0,3,7,8,0xFF, rotating} and all variants for cla 0 / ins 1,2,3. Plus proptest APDUs with random data and raw byte strings. Oracle: the statement transcribed (class check first; ins 3 -> Version; ins 1 -> Register iff 64 bytes; ins 2 -> Authenticate iff P1 in {3,7,8} and len == 65 + data[64]; otherwise the named status), both entry points agree, no panic. Class 0xFF is rejected by the APDU parser itself and nothing further is asserted for it. Non-trivial: cla == 0 and ins in {1,2}; distinct by APDU bytes.";
+pub const RULE: &str = "APDUs are constructed by an independent ISO 7816-4 framer from (cla, ins, p1, p2, data, encoding in {short, short+Le, extended, extended+Le}, announced Le rotating over {max,1,5,6,7,255,256,65535}) and handed to iso7816's CommandView / Command<7609> parsers and then to both ctap1::Request conversions. Thorough: the complete header space (256 classes x 256 instructions x 256 P1), each header with one (length, encoding, key-handle-length-byte consistency) variant chosen by rotation, and for instructions 1, 2, 3 with ALL 256 variants (16 data lengths on the decision boundaries 0,1,32,63..67,96,255,256,318..321,400 x 4 encodings x 4 consistency modes); quick: every (cla, ins) with P1 in {0,3,7,8,0xFF, rotating} and all variants for cla 0 / ins 1,2,3. Plus proptest APDUs with random data and raw byte strings. Oracle: the statement transcribed (class check first; ins 3 -> Version; ins 1 -> Register iff 64 bytes; ins 2 -> Authenticate iff P1 in {3,7,8} and len == 65 + data[64]; otherwise the named status), both entry points agree, no panic. Class 0xFF is rejected by the APDU parser itself and nothing further is asserted for it. Non-trivial: cla == 0 and ins in {1,2}; distinct by APDU bytes.";
 pub const ASSUMPTIONS: &[&str] = &["the harness framer follows ISO 7816-4 cases 1, 2S/2E, 3S/3E, 4S/4E", "iso7816's parser is part of the system under test (its data slice is compared with the framed data)"];
 
 pub fn run(ctx: &mut Ctx) {
